@@ -307,18 +307,32 @@ let rec sort_twins (l : Sexp.t list) : Sexp.t list =
 (* rename broker-assigned packet ids per socket by first appearance (outbound flows) *)
 let rename_pids (steps : (int * Sexp.t list * bool) list list) : (int * Sexp.t list * bool) list list =
   let steps = resolve_aliases steps in
+  (* A socket label can carry several connections one after the other, and every connection numbers its packets
+     from 1 again: the table of a label starts afresh at each CONNACK.  Only retransmissions (DUP=1 PUBLISH, PUBREL)
+     keep the name their id had on the previous connection of that label, so that "same packet identifier" is still
+     compared; a first transmission never inherits a name (which copy of a burst got which id is schedule dependent). *)
   let tbl : (int * string, string) Hashtbl.t = Hashtbl.create 16 in
+  let old : (int * string, string) Hashtbl.t = Hashtbl.create 16 in
   let cnt : (int, int) Hashtbl.t = Hashtbl.create 16 in
-  let ren c pid =
+  let new_connection c =
+    Hashtbl.filter_map_inplace (fun (c', pid) r -> if c' = c then (Hashtbl.replace old (c, pid) r; None) else Some r) tbl in
+  let ren ~retx c pid =
     if pid = "0" then pid else
       match Hashtbl.find_opt tbl (c, pid) with
       | Some r -> r
-      | None -> let n = (try Hashtbl.find cnt c with Not_found -> 0) + 1 in
-        Hashtbl.replace cnt c n; let r = "p" ^ string_of_int n in Hashtbl.replace tbl (c, pid) r; r in
+      | None ->
+        (match (if retx then Hashtbl.find_opt old (c, pid) else None) with
+         | Some r -> Hashtbl.replace tbl (c, pid) r; r
+         | None ->
+           let n = (try Hashtbl.find cnt c with Not_found -> 0) + 1 in
+           Hashtbl.replace cnt c n; let r = "p" ^ string_of_int n in Hashtbl.replace tbl (c, pid) r; r) in
   List.map (fun step -> List.map (fun (c, pk, o) ->
+      if List.exists (fun x -> match x with Sexp.L (Sexp.A "connack" :: _) -> true | _ -> false) pk then new_connection c;
       (c, List.map (fun x -> match x with
-           | Sexp.L [Sexp.A "publish"; d; q; r; t; p; Sexp.A pid; ps] -> Sexp.L [Sexp.A "publish"; d; q; r; t; p; Sexp.A (ren c pid); ps]
-           | Sexp.L [Sexp.A "pubrel"; Sexp.A pid; cd; ps] -> Sexp.L [Sexp.A "pubrel"; Sexp.A (ren c pid); cd; ps]
+           | Sexp.L [Sexp.A "publish"; d; q; r; t; p; Sexp.A pid; ps] ->
+             let retx = (match d with Sexp.A "1" -> true | _ -> false) in
+             Sexp.L [Sexp.A "publish"; d; q; r; t; p; Sexp.A (ren ~retx c pid); ps]
+           | Sexp.L [Sexp.A "pubrel"; Sexp.A pid; cd; ps] -> Sexp.L [Sexp.A "pubrel"; Sexp.A (ren ~retx:true c pid); cd; ps]
            | _ -> x) (sort_runs (split_flows pk)), o)) step) steps
   |> List.map (fun step -> List.map (fun (c, pk, o) -> (c, sort_twins pk, o)) step)
 
